@@ -11,7 +11,7 @@ use concordium_base::{
         secret_sharing::{reveal, reveal_in_group, share, Threshold},
         types::AttributeTag,
     },
-    pedersen_commitment::{CommitmentKey, Value as PedersenValue},
+    pedersen_commitment::{CommitmentKey, Randomness as PedersenRandomness, Value as PedersenValue, VecCommitmentKey},
 };
 use curve25519_dalek::ristretto::RistrettoPoint;
 use hlib::{guarded, hex, quiet_panics, unhex, Rng};
@@ -241,6 +241,100 @@ fn pedersen_case<C: TC>(r: &mut Rng, idx: u64) -> J {
     json!({"k":"pedersen","i":idx,"c":C::NAME,"w":4,"nb":<C::Scalar as PrimeField>::NUM_BITS,
         "a":[hex_l4(&ag), hex_l4(&ah)], "s":[limbs_json(&v), limbs_json(&rr)], "scls":[c1, c2],
         "res":res_hex, "naive_ok":ok})
+}
+
+// ------------------------------------------------------------------ vector / scalar Pedersen commitments
+/// Randomness classes for the commitment cases: 0, 1, order-1, structured.
+fn vcom_rand<C: TC>(r: &mut Rng, cls: u64) -> (&'static str, L4) {
+    match cls { 0 => ("zero", [0; 4]), 1 => ("one", [1, 0, 0, 0]), 2 => ("order-1", sub_small(&C::ORDER, 1)),
+        _ => { let (_, v) = gen_scalar::<C>(r); if v == [0; 4] { ("random", [r.next() | 2, r.next(), 0, 0]) } else { ("random", v) } } }
+}
+/// Non-zero multiplier of the generator, distinct from the ones in `used`.
+fn vcom_base<C: TC>(r: &mut Rng, used: &[L4]) -> L4 {
+    loop {
+        let v = match r.below(4) { 0 => [r.range(1, 40), 0, 0, 0], 1 => sub_small(&C::ORDER, r.range(1, 40)), _ => gen_scalar::<C>(r).1 };
+        if v != [0; 4] && !used.contains(&v) { return v; }
+    }
+}
+/// VecCommitmentKey with n bases a_i*g and h = ah*g; commit to the first k values.  The expected result is the
+/// naive sum_{i<k} v_i*g_i + r*h with the curve's own add/mul (and, in the check, (sum v_i a_i + r ah)*g).
+fn vcom_case<C: TC>(r: &mut Rng, n: usize, k: usize, rcls: u64, zero_vals: bool) -> J {
+    let g0 = C::one_point();
+    let mut a: Vec<L4> = Vec::new();
+    for _ in 0..n { let v = vcom_base::<C>(r, &a); a.push(v); }
+    let ah = vcom_base::<C>(r, &a);
+    let gs: Vec<C> = a.iter().map(|x| g0.mul_by_scalar(&scalar_of::<C>(x))).collect();
+    let h = g0.mul_by_scalar(&scalar_of::<C>(&ah));
+    let key = VecCommitmentKey::<C>::new(gs.clone(), h);
+    let mut vcls = Vec::new();
+    let mut v: Vec<L4> = Vec::new();
+    for _ in 0..k { let (c, x) = if zero_vals { ("zero", [0u64; 4]) } else { gen_scalar::<C>(r) }; vcls.push(c); v.push(x); }
+    let (rc, rr) = vcom_rand::<C>(r, rcls);
+    let vs: Vec<C::Scalar> = v.iter().map(|x| scalar_of::<C>(x)).collect();
+    let rs = scalar_of::<C>(&rr);
+    let rnd = PedersenRandomness::<C>::new(rs);
+    let mut naive = C::zero_point();
+    for i in 0..k { naive = naive.plus_point(&gs[i].mul_by_scalar(&vs[i])); }
+    naive = naive.plus_point(&h.mul_by_scalar(&rs));
+    let res = guarded(|| key.hide_worker(&vs, &rs));
+    let res2 = guarded(|| key.hide(&vs, &rnd));
+    let (res_hex, naive_ok, hide_same) = match (&res, &res2) {
+        (Ok(Some(c)), Ok(Some(c2))) => (point_hex(&c.0), c.0 == naive, c.0 == c2.0),
+        (Ok(None), _) => ("NONE".to_string(), false, false),
+        (Ok(Some(c)), _) => (point_hex(&c.0), c.0 == naive, false),
+        (Err(_), _) => ("PANIC".to_string(), false, false) };
+    // open: accepts the naive commitment, rejects it for the randomness + 1 (h is not the identity)
+    let ncm = concordium_base::pedersen_commitment::Commitment(naive);
+    let open_ok = guarded(|| key.open(&vs, &rnd, &ncm)).unwrap_or(false);
+    let mut r1 = rs; <C::Scalar as concordium_base::curve_arithmetic::Field>::add_assign(&mut r1, &<C::Scalar as concordium_base::curve_arithmetic::Field>::one());
+    let open_rej = guarded(|| !key.open(&vs, &PedersenRandomness::<C>::new(r1), &ncm)).unwrap_or(false);
+    // one value too many: None
+    let mut over = vs.clone();
+    while over.len() <= n { over.push(rs); }
+    let over_none = matches!(guarded(|| key.hide_worker(&over, &rs)), Ok(None));
+    json!({"k":"vcom","c":C::NAME,"n":n,"kk":k,"a":a.iter().map(hex_l4).collect::<Vec<_>>(),"ah":hex_l4(&ah),
+        "v":v.iter().map(hex_l4).collect::<Vec<_>>(),"vcls":vcls,"r":hex_l4(&rr),"rcls":rc,
+        "res":res_hex,"naive_ok":naive_ok,"hide_same":hide_same,"open_ok":open_ok,"open_rej":open_rej,"over_none":over_none})
+}
+/// Scalar CommitmentKey (g,h) = (ag*g0, ah*g0): hide / open of (value, randomness), incl. the 0 boundaries.
+fn ckey_case<C: TC>(r: &mut Rng, vc: u64, rcls: u64) -> J {
+    let g0 = C::one_point();
+    let ag = vcom_base::<C>(r, &[]);
+    let ah = vcom_base::<C>(r, &[ag]);
+    let ck = CommitmentKey::<C>::new(g0.mul_by_scalar(&scalar_of::<C>(&ag)), g0.mul_by_scalar(&scalar_of::<C>(&ah)));
+    let (c1, v) = vcom_rand::<C>(r, vc);
+    let (c2, rr) = vcom_rand::<C>(r, rcls);
+    let vs = scalar_of::<C>(&v);
+    let rs = scalar_of::<C>(&rr);
+    let val = PedersenValue::<C>::new(vs);
+    let rnd = PedersenRandomness::<C>::new(rs);
+    let naive = ck.g.mul_by_scalar(&vs).plus_point(&ck.h.mul_by_scalar(&rs));
+    let res = guarded(|| ck.hide(&val, &rnd));
+    let (res_hex, naive_ok) = match &res { Ok(c) => (point_hex(&c.0), c.0 == naive), Err(_) => ("PANIC".to_string(), false) };
+    let ncm = concordium_base::pedersen_commitment::Commitment(naive);
+    let open_ok = guarded(|| ck.open(&val, &rnd, &ncm)).unwrap_or(false);
+    let mut r1 = rs; <C::Scalar as concordium_base::curve_arithmetic::Field>::add_assign(&mut r1, &<C::Scalar as concordium_base::curve_arithmetic::Field>::one());
+    let open_rej = guarded(|| !ck.open(&val, &PedersenRandomness::<C>::new(r1), &ncm)).unwrap_or(false);
+    let zero_is_identity = if v == [0; 4] && rr == [0; 4] { match &res { Ok(c) => c.0 == C::zero_point(), Err(_) => false } } else { true };
+    json!({"k":"ckey","c":C::NAME,"n":1,"kk":1,"a":[hex_l4(&ag)],"ah":hex_l4(&ah),"v":[hex_l4(&v)],"vcls":[c1],"r":hex_l4(&rr),"rcls":c2,
+        "res":res_hex,"naive_ok":naive_ok,"hide_same":true,"open_ok":open_ok,"open_rej":open_rej,"over_none":zero_is_identity})
+}
+fn vcom_curve<C: TC>(r: &mut Rng, rounds: u64) {
+    for round in 0..rounds {
+        for n in 1..=6usize {
+            for k in 0..=n {
+                for rcls in 0..4u64 { println!("{}", vcom_case::<C>(r, n, k, rcls, false)); }
+                if round == 0 { println!("{}", vcom_case::<C>(r, n, k, 0, true)); println!("{}", vcom_case::<C>(r, n, k, 3, true)); }
+            }
+        }
+        for vc in 0..4u64 { for rcls in 0..4u64 { println!("{}", ckey_case::<C>(r, vc, rcls)); } }
+    }
+}
+fn vcom(seed: u64, rounds: u64) {
+    let mut r = Rng::new(seed ^ 0x7C0);
+    vcom_curve::<G1>(&mut r, rounds);
+    vcom_curve::<Ed>(&mut r, rounds);
+    vcom_curve::<G2>(&mut r, (rounds + 1) / 2);
 }
 
 fn mexp(seed: u64, n: u64) {
@@ -838,6 +932,7 @@ fn main() {
     let n: u64 = args.get(3).and_then(|s| s.parse().ok()).unwrap_or(10);
     match mode {
         "mexp" => mexp(seed, n),
+        "vcom" => vcom(seed, n),
         "wnaf" => wnaf(seed, n),
         "dlog" => dlog(),
         "enc" => enc(seed, n),
